@@ -207,3 +207,68 @@ def o_to_pgl_hom_up_to_sign(ctx):
     RA, RB, RAB = lie.o_to_pgl(MA), lie.o_to_pgl(MB), lie.o_to_pgl(MA @ MB)
     ctx.ensure_eq('product_up_to_sign', RAB.reshape(1, 4), (RA @ RB).reshape(1, 4), proj=True, tol=1e-6)
     ctx.ensure_eq('determinant_one', det(RAB, ctx), 1, tol=1e-6)
+
+
+@rcontract(P, "o_to_pgl_recovers_det_minus_one", instances=[{}], max_paths=40, timeout=20.0,
+           functions=["geometry_tools/lie/core.py:o_to_pgl", "geometry_tools/lie/core.py:sl2_to_so21", "geometry_tools/lie/core.py:sl2_irrep"],
+           note="O(2,1) has orientation-reversing elements: the symmetric squares of 2x2 matrices of determinant -1 (generic stratum)")
+def o_to_pgl_recovers_det_minus_one(ctx):
+    rnd = lambda r: r.choice([-1, 1]) * r.uniform(0.4, 2)
+    a, b, c = (ctx.real(nm, rnd) for nm in "abc")
+    _nz(ctx, a, b, c, b * c - 1)
+    A = np.array([[a, b], [c, (b * c - 1) / a]], dtype=object if ctx.mode == 'sym' else float)
+    M = lie.sl2_to_so21(A)
+    J = spec.J(3)
+    ctx.ensure_eq('image_in_O21', M.T @ J @ M, J, tol=1e-6)
+    ctx.ensure_eq('image_orientation_reversing', det(M, ctx), -1, tol=1e-6)
+    R = lie.o_to_pgl(M)
+    ctx.ensure_eq('proportional_to_A', R.reshape(1, 4), A.reshape(1, 4), proj=True, tol=1e-6)
+    ctx.ensure_eq('same_determinant', det(R, ctx), -1, tol=1e-6)
+
+
+@bounded(P, "o21_sampling", functions=["geometry_tools/lie/core.py:o_to_pgl", "geometry_tools/lie/core.py:sl2_to_so21"],
+         note="o_to_pgl on all of O(2,1): products of rotations, boosts and reflections (both orientations), homomorphism up to sign and determinant")
+def o21_sampling(tier, rng, rep):
+    N = 2000 if tier == 'thorough' else 300
+    rep.rule = ("random g, h in O(2,1) = rot boost rot [reflection rot] built independently of the library, both orientation classes; generic position (entries of the "
+                "2x2 representatives and of their product bounded away from 0: the strata a = 0 are listed findings); non-trivial = an orientation-reversing factor")
+    rep.bound = f"{N} pairs"
+    J = spec.J(3)
+
+    def boost(t):
+        return np.array([[np.cosh(t), np.sinh(t), 0.], [np.sinh(t), np.cosh(t), 0.], [0., 0., 1.]])
+
+    def rot(t):
+        return np.array([[1., 0., 0.], [0., np.cos(t), -np.sin(t)], [0., np.sin(t), np.cos(t)]])
+
+    def elem(rev):
+        g = rot(rng.uniform(0.2, 2.9)) @ boost(rng.uniform(-1.2, 1.2)) @ rot(rng.uniform(0.2, 2.9))
+        if rev:
+            g = g @ [np.diag([1., 1., -1.]), np.diag([1., -1., 1.])][int(rng.integers(2))] @ rot(rng.uniform(0.2, 2.9))
+        return g
+    done = 0
+    for t in range(N * 4):
+        if done >= N:
+            break
+        rg, rh = bool(rng.integers(2)), bool(rng.integers(2))
+        g, hh = elem(rg), elem(rh)
+        inp = {"g": g.tolist(), "h": hh.tolist()}
+        try:
+            with np.errstate(all='ignore'):
+                Rg, Rh, Rgh = lie.o_to_pgl(g), lie.o_to_pgl(hh), lie.o_to_pgl(g @ hh)
+        except Exception as e:
+            rep.fail("o_to_pgl_runs", f"{type(e).__name__}: {e}", inp); done += 1; continue
+        if min(np.min(np.abs(Rg)), np.min(np.abs(Rh)), np.min(np.abs(Rgh)), np.min(np.abs(Rg @ Rh))) < 5e-2:
+            continue            # near a stratum where an entry vanishes
+        done += 1
+        for nm, R_, m_ in (("g", Rg, g), ("h", Rh, hh), ("gh", Rgh, g @ hh)):
+            if not (abs(np.linalg.det(R_) - np.linalg.det(m_)) <= 1e-6):
+                rep.fail("determinant_matches_orientation", f"det o_to_pgl({nm}) = {np.linalg.det(R_)}, det {nm} = {np.linalg.det(m_)}", inp)
+        P_ = Rg @ Rh
+        if not (np.all(np.abs(Rgh - P_) <= 1e-6 * (1 + np.max(np.abs(P_)))) or np.all(np.abs(Rgh + P_) <= 1e-6 * (1 + np.max(np.abs(P_))))):
+            rep.fail("homomorphism_up_to_sign", f"o_to_pgl(gh) = {Rgh.tolist()} vs {P_.tolist()}", inp)
+        # and o_to_pgl inverts sl2_to_so21 up to sign on both components
+        back = lie.o_to_pgl(lie.sl2_to_so21(Rg))
+        if not (np.all(np.abs(back - Rg) <= 1e-6) or np.all(np.abs(back + Rg) <= 1e-6)):
+            rep.fail("roundtrip_up_to_sign", f"{back.tolist()} vs {Rg.tolist()}", inp)
+        rep.case(key=(t,), nontrivial=rg or rh, sample=inp if done == 1 else None)
